@@ -27,6 +27,9 @@ def directive(prop, q=(160, 100, 6), t=(1600, 1000, 12), par_exec=0):
         if prop == "C15":
             import known_probes
             known_probes.check_known(c, c.build_cff(), ("C15",))
+        if prop == "C18":
+            # the same with -auto-instrument: every task of an instrumented directive reports
+            G.pipeline(c, 60 if c.quick else 300, 40 if c.quick else 200, 4 if c.quick else 10, seed_off=60, cff_extra=("-auto-instrument",))
         c.assumptions += ["harness bodies report truthfully (tokens, stamps); the log is mutex-ordered",
                           "programs are drawn from the renderer's feature space (see tools/render.py)"]
         return c.finish("model_checking", RULE)
